@@ -42,35 +42,34 @@ namespace lang
     std::string join(InputIterator begin, InputIterator end,
                      const std::string& infix = std::string(" "))
     {
-        if (begin == end)
-            return {};
-
+        // only elements with a non-empty representation take part, so there is never a leading,
+        // trailing or doubled infix
         std::stringstream s;
 
-        auto it = begin;
+        bool first = true;
 
-        for (; it + 1 != end; ++it)
+        for (auto it = begin; it != end; ++it)
         {
-            auto pos = s.tellp();
+            std::stringstream element;
+            element << *it;
 
-            s << *it;
+            auto str = element.str();
 
-            if (s.tellp() != pos)
+            if (str.empty())
+            {
+                continue;
+            }
+
+            if (!first)
             {
                 s << infix;
             }
+
+            s << str;
+            first = false;
         }
 
-        s << *it;
-
-        auto str = s.str();
-
-        if (!str.empty() && str.back() == ' ')
-        {
-            return str.substr(0, str.size() - 1);
-        }
-
-        return str;
+        return s.str();
     }
 
     inline std::string join(const std::vector<std::string>& strs,
